@@ -43,6 +43,7 @@ struct State {
   int hll_inputs = 0; std::set<int> hll_lgks;
   bool downsample_before_second = false;
   int reset_lg_k = -1;   // precision retained by the last reset (-1: never reset)
+  bool gadget_hll = false;  // the union's gadget is known to be in HLL mode (by an HLL input or by self-promotion)
 };
 
 void check_result(hll_union& u, State& st, int type, const char* when) {
@@ -81,7 +82,9 @@ void check_result(hll_union& u, State& st, int type, const char* when) {
   }
   double est = u.get_estimate(), comp = u.get_composite_estimate();
   VF_CHECK(std::isfinite(est) && std::isfinite(comp) && est >= 0, "estimate-finite", when << ": estimate not finite");
-  for (uint8_t sd = 1; sd <= 3; ++sd) VF_CHECK(u.get_lower_bound(sd) <= est && est <= u.get_upper_bound(sd), "bounds-order", when << ": lb<=est<=ub violated at " << int(sd));
+  // relative tolerance 1e-9: the lower bound is max(est/(1+e), number of non-zero registers) and the bitmap estimate of a
+  // nearly empty array can round a hair below that integer (0.99999999999997 for one register)
+  for (uint8_t sd = 1; sd <= 3; ++sd) VF_CHECK(u.get_lower_bound(sd) <= est * (1 + 1e-9) && est <= u.get_upper_bound(sd) * (1 + 1e-9), "bounds-order", when << ": lb<=est<=ub violated at " << int(sd) << ": " << u.get_lower_bound(sd) << " " << est << " " << u.get_upper_bound(sd));
   VF_CHECK(close(r.get_composite_estimate(), comp, 1e-12), "result-composite", when << ": result composite " << r.get_composite_estimate() << " union " << comp);
 }
 
@@ -105,7 +108,10 @@ void prop(const Case& cs) {
     if (mode == 2 && !sk.is_empty()) {
       if (st.hll_inputs == 0 && sp.lg_k > st.lg_max_k) st.downsample_before_second = true;
       st.any_hll = true; st.hll_inputs++; st.hll_lgks.insert(sp.lg_k);
-      st.lg_k = std::min(st.lg_k, sp.lg_k);
+      // an HLL input into a gadget still in coupon mode (or empty) builds the new gadget at min(lg_max_k, source lg_k) -
+      // a precision retained by an earlier reset only matters while the gadget stays in coupon mode or promotes by itself
+      if (!st.gadget_hll) st.lg_k = std::min(st.lg_max_k, sp.lg_k); else st.lg_k = std::min(st.lg_k, sp.lg_k);
+      st.gadget_hll = true;
     }
     return mode;
   };
@@ -129,6 +135,7 @@ void prop(const Case& cs) {
       int mode = model_sketch(specs[i]);
       offer_sketch(u, specs[i], rv);
       st.steps.push_back(Step{0, static_cast<int>(i), rv, vf::Item{0, 0}, 0, 0});
+      if (!st.gadget_hll && !st.m.coupons.empty()) st.gadget_hll = parse(u.get_result(HLL_8)).mode == 2;  // self-promotion at the current lg_k
       vf::label(specs[i].n == 0 ? "input:empty" : mode == 0 ? "input:LIST" : mode == 1 ? "input:SET" : "input:HLL");
       if (rv) vf::label("rvalue-update");
     } else if (op.name == "u_raw") {
@@ -136,12 +143,14 @@ void prop(const Case& cs) {
       vf::feed(u, it);
       uint32_t c; if (vf::ref_hll_item_coupon(it, c)) st.m.add(c);
       st.steps.push_back(Step{1, 0, false, it, 0, 0});
+      if (!st.gadget_hll && !st.m.coupons.empty()) st.gadget_hll = parse(u.get_result(HLL_8)).mode == 2;
       vf::label("raw-update");
     } else if (op.name == "u_bulk") {
       uint64_t n = op.uarg(0) % 20000;
       uint64_t start = 1000000 + fresh; fresh += n;
       for (uint64_t i = 0; i < n; ++i) { int64_t key = static_cast<int64_t>(start + i); u.update(key); st.m.add(vf::ref_hll_coupon(vf::ref_hash_i64(key, 9001))); }
       st.steps.push_back(Step{2, 0, false, vf::Item{0, 0}, start, n});
+      if (!st.gadget_hll && !st.m.coupons.empty()) st.gadget_hll = parse(u.get_result(HLL_8)).mode == 2;
     } else if (op.name == "res") {
       check_result(u, st, static_cast<int>(op.uarg(0) % 3), "get_result");
       vf::label("intermediate-result");
@@ -155,7 +164,7 @@ void prop(const Case& cs) {
       // reset empties the union "in coupon collection mode"; like the Java implementation (which documents it) it keeps the
       // precision the union had been reduced to, so the model keeps lg_k and only forgets the content
       int kept = st.lg_k;
-      st.m = vf::HllModel(); st.any_hll = false; st.steps.clear(); st.hll_inputs = 0; st.hll_lgks.clear();
+      st.m = vf::HllModel(); st.any_hll = false; st.steps.clear(); st.hll_inputs = 0; st.hll_lgks.clear(); st.gadget_hll = false;
       st.reset_lg_k = kept;
       VF_CHECK(u.is_empty(), "reset-empty", "union not empty after reset");
       VF_CHECK(u.get_lg_config_k() == kept, "reset-lg-k", "after reset union lg_k " << int(u.get_lg_config_k()) << " expected the retained " << kept);
@@ -164,11 +173,15 @@ void prop(const Case& cs) {
   }
   check_result(u, st, static_cast<int>(cs.get("rtype", 2) % 3), "final");
   // permuted replay, no intermediate queries, opposite lvalue/rvalue choice
-  if (st.steps.size() >= 1) {
+  // after a reset that retained a reduced precision the result's lg_k depends on whether an HLL input or coupons arrive
+  // first (documented quirk, see DESIGN changelog): order independence is only claimed for histories starting at lg_max_k
+  bool plain = st.reset_lg_k < 0 || st.reset_lg_k == st.lg_max_k;
+  if (!plain) vf::label("post-reset-reduced-precision");
+  if (st.steps.size() >= 1 && plain) {
     vf::Rng r(static_cast<uint64_t>(cs.get("perm", 1)) + 5);
     std::vector<Step> perm = st.steps;
     for (size_t i = perm.size(); i > 1; --i) std::swap(perm[i - 1], perm[r.below(i)]);
-    hll_union u2(static_cast<uint8_t>(st.reset_lg_k >= 0 ? st.reset_lg_k : st.lg_max_k));
+    hll_union u2(static_cast<uint8_t>(st.lg_max_k));
     for (const Step& s : perm) {
       if (s.kind == 0) offer_sketch(u2, specs[s.idx], !s.rv);
       else if (s.kind == 1) vf::feed(u2, s.item);
@@ -208,7 +221,7 @@ void prop(const Case& cs) {
 rc::Gen<Case> gen_main() {
   using namespace vf;
   // n: mostly sizes that matter for mode transitions at the given lg_k; start_full_size makes HLL mode cheap at large lg_k
-  auto nGen = rc::gen::weightedOneOf<int64_t>({{1, range(0, 0)}, {2, range(1, 7)}, {2, range(8, 200)}, {4, range(200, 5000)}, {1, range(5000, 200000)}});
+  auto nGen = rc::gen::weightedOneOf<int64_t>({{1, range(0, 0)}, {1, range(1, 7)}, {2, range(8, 200)}, {6, range(200, 5000)}, {1, range(5000, 200000)}});
   auto skBase = op4("sk", rc::gen::weightedOneOf<int64_t>({{5, range(0, 6)}, {2, range(7, 12)}, {1, range(13, 17)}}), range(0, 2), range(0, 3), range(0, 5999));
   auto sk = rc::gen::map(rc::gen::tuple(skBase, nGen), [](std::tuple<Op, int64_t> t) { Op o = std::get<0>(t); o.a.push_back(std::get<1>(t)); return o; });
   auto hist = choose({
